@@ -13,7 +13,7 @@ import (
 func TestKvcStandinC0616(t *testing.T) {
 	for _, n := range ListSupportedTypes() {
 		if len(n) > 3 && n[:3] == "16." && n != "16.000" && n != "16.001" {
-			fmt.Printf("KVC-STANDIN C0616 FAIL registered type %s is not covered by this stand-in\n", n)
+			fmt.Printf("KVC-STANDIN C0616 UNCOVERED registered type %s is not covered by this stand-in\n", n)
 			t.FailNow()
 		}
 	}
